@@ -1704,7 +1704,10 @@ impl<'a> Socket<'a> {
 
         let window_start = self.remote_seq_no + self.rx_buffer.len();
         let window_end = if let Some(last_ack) = self.remote_last_ack {
-            last_ack + ((self.remote_last_win as usize) << self.remote_win_shift)
+            // A FIN that exactly filled the advertised window has moved RCV.NXT one past the
+            // advertised edge; the window is then empty, never inverted.
+            (last_ack + ((self.remote_last_win as usize) << self.remote_win_shift))
+                .max(window_start)
         } else {
             window_start
         };
